@@ -339,6 +339,11 @@ theorem jitterBad_false {p : Params α} (hj : JitterOk p) : jitterBad p = false 
   · simp [h]
   · simp [h1, h2]
 
+/-- neither the range checks nor the resolved count look at `jitter` -/
+theorem rangeBad_jitter (p : Params α) (j : α) : rangeBad { p with jitter := j } = rangeBad p := rfl
+theorem resolveCount_jitter (fuel : Nat) (p : Params α) (j : α) :
+    resolveCount fuel { p with jitter := j } = resolveCount fuel p := rfl
+
 end Order
 /-! ### exact layer: the rationals -/
 section Exact
